@@ -8,6 +8,9 @@
 From GC Require Import Base Model_Inventory.
 
 Definition reviewed_state : list reviewed_field := [
+  {| r_struct := "package-level variables"; r_field := "collection";
+     r_sites := [W "InitEmbeddedRules" "ptr-method:AddChecker" 1%N];
+     r_status := "reviewed"; r_why := "package-level variable of checkers/: registration only. InitEmbeddedRules is called once by every front-end before the registry is read (C08's snapshot-order fix); no Check path reaches it. Any OTHER package-level variable written outside init / new* is state shared by all checker instances and all goroutines of a run and must be listed here" |};
   {| r_struct := "badRegexpChecker"; r_field := "parser";
      r_sites := [W "badRegexpChecker.checkPattern" "via-pointer:Parse" 1%N];
      r_status := "reviewed"; r_why := "syntax.Parser.Parse re-initialises the parser for every pattern (third-party; covered by the reused-vs-fresh oracle on corpus/framework/regex)" |};
